@@ -152,6 +152,21 @@ def run_reuse_C12(rep, tier, seed):
     report(rep, "C12", "reuse_and_single", results)
 
 
+def run_exact_near_optimum(rep, tier, seed):
+    """C12 with the exact controller and a loose Newton tolerance: trials that start with a residual already within the
+    tolerance (near the optimum) are trials like any other"""
+    g = Gen(seed + 1213)
+    results = []
+    for k in range(24 if tier == "thorough" else 8):
+        case = C.gen_case(g, "convex_qp", {"iteration_limit": 60, "collect_path": True, "step_control_type": "Exact",
+                                           "newton_tol": g.rng.choice([1e-2, 1e-1, 1.0]), "lamb_init": g.rng.choice([1.0, 1e3, 1e6])},
+                          scaling=False)
+        rec = C.run(case)
+        msg = C.oracle_C12(case, rec)
+        results.append((case, keyof(msg), msg, "exact/%s" % (rec.get("status") or rec.get("kind"))))
+    report(rep, "C12", "exact_near_optimum", results)
+
+
 def run_default_start(rep, tier, seed):
     """C05 when the caller gives no start: the default start is the projection of 0 onto the box, not 0"""
     g = Gen(seed + 55)
@@ -314,8 +329,11 @@ def gen_fault_cases(g, tier):
             base["variant"] = "linear"
             cases.append(base)
     # targeted: each callback failing at the starting point (the Hessian's only evaluation there is the problem statistics)
-    for nm in ("obj", "obj_grad", "cons", "cons_jac", "lag_hess"):
-        base = C.gen_case(g, "nonlinear", {"iteration_limit": 20}, scaling=False)
+    for nm in ("obj", "obj_grad", "cons", "cons_jac", "lag_hess", "lag_hess"):
+        # (convex_qp: the Hessian certainly has stored entries; nonlinear: the constraint callbacks do)
+        base = C.gen_case(g, "convex_qp" if nm in ("lag_hess", "obj", "obj_grad") else "nonlinear", {"iteration_limit": 20}, scaling=False)
+        if nm in ("cons", "cons_jac") and base["spec"]["cl"] == []:
+            continue
         base["faults"] = {"eval": {"name": nm, "k": 1}}
         base["variant"] = "start"
         cases.append(base)
